@@ -3,8 +3,8 @@ package main
 // Calls (by contract), builtins, trusted externals, defers, panics, closures, function exit.
 
 import (
-	"go/ast"
 	"fmt"
+	"go/ast"
 	"go/token"
 	"go/types"
 	"sort"
@@ -301,6 +301,16 @@ func (e *Enc) doCall(ci ssa.CallInstruction, c *ssa.CallCommon, argOverride []Te
 	if err != nil {
 		return nil, err
 	}
+	// math.* functions accept and propagate non-finite values without panicking: the result inherits the taint
+	if isMathCall(c) {
+		if tc, ok := e.taintOf(args...); ok {
+			for _, r := range res {
+				if r.Sort == SReal {
+					e.addTaintDeep(r, tc)
+				}
+			}
+		}
+	}
 	if err := e.runHooks("after", ci, args, res); err != nil {
 		return nil, err
 	}
@@ -356,7 +366,7 @@ func (e *Enc) evalArgs(c *ssa.CallCommon) []Term {
 			continue
 		}
 		av := e.val(a)
-		if av.Sort == SReal {
+		if av.Sort == SReal && !isMathCall(c) {
 			e.finiteUse(nil, "passed to a call", av)
 		}
 		args = append(args, av)
@@ -1694,7 +1704,6 @@ func isSelectPanicBlock(b *ssa.BasicBlock) bool {
 	return true
 }
 
-
 // loadChainTerm: the value of v (defined inside loop li) when v is a chain of pointer-field loads
 // rooted at a value defined outside the loop, read in the current (loop entry) state.
 func (e *Enc) loadChainTerm(li *loopInfo, v ssa.Value, depth int) (Term, bool) {
@@ -1733,7 +1742,6 @@ func (e *Enc) loadChainTerm(li *loopInfo, v ssa.Value, depth int) (Term, bool) {
 	return Select(h, base), true
 }
 
-
 // debugIdent: the source identifier a value is bound to (from its DebugRef), if any.
 func debugIdent(v ssa.Value) string {
 	if v.Referrers() == nil {
@@ -1748,7 +1756,6 @@ func debugIdent(v ssa.Value) string {
 	}
 	return ""
 }
-
 
 // exceptedHeaps: the heaps named by an allbut(...) list: ghost variables by name, pkg:<name> = the
 // field heaps of every struct type declared in a package with that name.
@@ -1768,7 +1775,6 @@ func (e *Enc) exceptedHeaps(except []string) []string {
 	sort.Strings(out)
 	return out
 }
-
 
 // lockRef: the callee locks the mutex stored in field `field` of the object its parameter `param` points to.
 type lockRef struct {
@@ -1857,7 +1863,6 @@ func lockSetOf(fn *ssa.Function, depth int, visiting map[*ssa.Function]bool) []l
 	return out
 }
 
-
 // contractOf: the callee's contract as seen from the function being verified (same variant).
 func (e *Enc) contractOf(f *ssa.Function) *FuncContract {
 	v := ""
@@ -1865,4 +1870,28 @@ func (e *Enc) contractOf(f *ssa.Function) *FuncContract {
 		v = e.fc.Variant
 	}
 	return e.prog.contractOfVariant(f, v)
+}
+
+
+func isMathCall(c *ssa.CallCommon) bool {
+	if c.IsInvoke() {
+		return false
+	}
+	if fn, ok := c.Value.(*ssa.Function); ok && fn.Pkg != nil && fn.Pkg.Pkg.Path() == "math" {
+		return true
+	}
+	return false
+}
+
+// addTaintDeep taints a result term: a constant directly, a compound term through its symbols.
+func (e *Enc) addTaintDeep(t Term, cond Term) {
+	if !strings.ContainsAny(t.S, "( ") {
+		e.addTaint(t, cond)
+		return
+	}
+	for _, m := range symRe.FindAllString(t.S, -1) {
+		if strings.HasPrefix(m, "rnd!") || strings.HasPrefix(m, "v_") || strings.Contains(m, "!") {
+			e.addTaint(Term{m, SReal}, cond)
+		}
+	}
 }
